@@ -1,2 +1,107 @@
-(* C04 — placeholder until the proofs land *)
-From TFL Require Import Model.PWLProject.
+(* C04 — PWLCalibration weight constraint (project_all_constraints).  Property
+   theorems only; proofs live in Proofs/PWLProject.v.  Every statement is per
+   unit column  w = bias :: heights  with n = length heights, for a
+   configuration accepted by the library (pwl_valid, below), for EVERY number
+   of Dykstra iterations p_iters unless stated otherwise.
+   keypoint_outputs w = cumsum w. *)
+From TFL Require Import Model.PWLProject Proofs.PWLProject.
+Open Scope Q_scope.
+
+(* pwl_valid c n: n >= 1 heights, one positive length per height, p_mono and
+   p_conv in {-1,0,1}, p_min <= p_max when both bounds are present, clamps
+   only together with monotonicity. *)
+(* Satisfiable: Proofs/PWLProject.v, Example pwl_valid_example. *)
+
+(* Monotonicity is exact: every height has the configured sign. *)
+Theorem C04_monotone_exact : forall c n bias hs, pwl_valid c n -> length hs = n ->
+  (p_mono c = 1%Z -> Forall (fun h => 0 <= h) (tl (pwl_project_col c (bias :: hs)))) /\
+  (p_mono c = (-1)%Z -> Forall (fun h => h <= 0) (tl (pwl_project_col c (bias :: hs)))).
+Proof. exact pwl_monotone_exact. Qed.
+Print Assumptions C04_monotone_exact.
+
+(* Bounds on every keypoint output, except for monotone + convex (finding D2). *)
+Theorem C04_bounds : forall c n bias hs, pwl_valid c n -> length hs = n ->
+  ~ (p_mono c <> 0%Z /\ p_conv c <> 0%Z) ->
+  (p_cmin c <> BNone -> Forall (fun s => p_min c <= s) (keypoint_outputs (pwl_project_col c (bias :: hs)))) /\
+  (p_cmax c <> BNone -> Forall (fun s => s <= p_max c) (keypoint_outputs (pwl_project_col c (bias :: hs)))).
+Proof. exact pwl_bounds. Qed.
+Print Assumptions C04_bounds.
+
+(* Known finding D2: with monotonicity AND convexity the final
+   _squeeze_by_scaling does not repair a bias outside the bounds. *)
+Theorem C04_bounds_refuted_monotone_convex :
+  exists c w, pwl_valid c (length w - 1) /\ p_mono c <> 0%Z /\ p_conv c <> 0%Z /\ p_cmin c <> BNone /\
+    exists s, In s (keypoint_outputs (pwl_project_col c w)) /\ s < p_min c.
+Proof. exact pwl_bounds_refuted_monotone_convex. Qed.
+Print Assumptions C04_bounds_refuted_monotone_convex.
+
+(* Convexity (slopes h_i / l_i ordered), division-free. *)
+Theorem C04_convex : forall c n bias hs, pwl_valid c n -> length hs = n ->
+  p_conv c <> 0%Z -> (p_mono c <> 0%Z \/ has_bounds c = false) ->
+  forall i, (S i < n)%nat ->
+  let h := tl (pwl_project_col c (bias :: hs)) in let l := p_lengths c in
+  (p_conv c = 1%Z -> nth i h 0 * nth (S i) l 0 <= nth (S i) h 0 * nth i l 0) /\
+  (p_conv c = (-1)%Z -> nth (S i) h 0 * nth i l 0 <= nth i h 0 * nth (S i) l 0).
+Proof. exact pwl_convex_nth. Qed.
+Print Assumptions C04_convex.
+
+Theorem C04_convex_slopes : forall c n bias hs, pwl_valid c n -> length hs = n ->
+  p_conv c <> 0%Z -> (p_mono c <> 0%Z \/ has_bounds c = false) ->
+  forall i, (S i < n)%nat ->
+  let h := tl (pwl_project_col c (bias :: hs)) in let l := p_lengths c in
+  (p_conv c = 1%Z -> nth i h 0 / nth i l 0 <= nth (S i) h 0 / nth (S i) l 0) /\
+  (p_conv c = (-1)%Z -> nth (S i) h 0 / nth (S i) l 0 <= nth i h 0 / nth i l 0).
+Proof. exact pwl_convex_slopes. Qed.
+Print Assumptions C04_convex_slopes.
+
+(* Clamps are hit exactly (no convexity, at least one Dykstra iteration):
+   increasing: first keypoint output = output_min, last = output_max;
+   decreasing: mirrored.  The far end rests on the Dykstra invariant
+   cm_pre/cm_post of Proofs/PWLProject.v (after every MONOTONICITY step
+   bias + sum heights >= output_max in increasing coordinates). *)
+Theorem C04_clamp_min_exact : forall c n bias hs, pwl_valid c n -> length hs = n ->
+  p_conv c = 0%Z -> (1 <= p_iters c)%nat -> p_cmin c = BClamped ->
+  (p_mono c = 1%Z -> nth 0 (keypoint_outputs (pwl_project_col c (bias :: hs))) 0 == p_min c) /\
+  (p_mono c = (-1)%Z -> last (keypoint_outputs (pwl_project_col c (bias :: hs))) 0 == p_min c).
+Proof. exact pwl_clamp_min_exact. Qed.
+Print Assumptions C04_clamp_min_exact.
+
+Theorem C04_clamp_max_exact : forall c n bias hs, pwl_valid c n -> length hs = n ->
+  p_conv c = 0%Z -> (1 <= p_iters c)%nat -> p_cmax c = BClamped ->
+  (p_mono c = 1%Z -> last (keypoint_outputs (pwl_project_col c (bias :: hs))) 0 == p_max c) /\
+  (p_mono c = (-1)%Z -> nth 0 (keypoint_outputs (pwl_project_col c (bias :: hs))) 0 == p_max c).
+Proof. exact pwl_clamp_max_exact. Qed.
+Print Assumptions C04_clamp_max_exact.
+
+(* Known finding D3: num_projection_iterations = 0 skips the Dykstra loop and
+   _finalize_constraints downgrades CLAMPED to BOUND, so the clamp is missed. *)
+Theorem C04_clamp_refuted_zero_iterations :
+  exists c w, pwl_valid c (length w - 1) /\ p_conv c = 0%Z /\ p_mono c = 1%Z /\ p_cmax c = BClamped /\ p_iters c = 0%nat /\
+    ~ last (keypoint_outputs (pwl_project_col c w)) 0 == p_max c.
+Proof. exact pwl_clamp_refuted_zero_iterations. Qed.
+Print Assumptions C04_clamp_refuted_zero_iterations.
+
+(* A kernel column that already meets every configured constraint (feasible:
+   signs, bounds on every keypoint output, ordered slopes, clamped ends exact)
+   is returned unchanged up to Qeq, for every number of iterations. *)
+Theorem C04_feasible_fixed : forall c n bias h, pwl_valid c n -> length h = n -> feasible c bias h ->
+  qleq (pwl_project_col c (bias :: h)) (bias :: h).
+Proof. exact pwl_feasible_fixed. Qed.
+Print Assumptions C04_feasible_fixed.
+
+(* NaiveBoundsConstraints: the imputed missing-value output stays in range. *)
+Theorem C04_missing_bounded : forall lo hi w, lo <= hi ->
+  lo <= naive_bounds (Some lo) (Some hi) w /\ naive_bounds (Some lo) (Some hi) w <= hi.
+Proof. exact naive_bounds_both. Qed.
+Print Assumptions C04_missing_bounded.
+
+Theorem C04_missing_bounded_one_sided : forall lo hi w,
+  lo <= naive_bounds (Some lo) None w /\ naive_bounds None (Some hi) w <= hi.
+Proof. exact naive_bounds_one_sided. Qed.
+Print Assumptions C04_missing_bounded_one_sided.
+
+(* Units are projected independently. *)
+Theorem C04_per_unit : forall c units W u, (u < units)%nat ->
+  column u (pwl_project c units W) = pwl_project_col c (column u W).
+Proof. exact pwl_project_per_unit. Qed.
+Print Assumptions C04_per_unit.
